@@ -123,7 +123,15 @@ def record_hist(fk, data, hist, rng, hid):
             except Exception:  # noqa: BLE001
                 pass
         steps.append({"k": k, "name": h, "obj": obj, "fresh": fresh, "concat": bool(concat), "exc": exc})
-    return {"id": hid, "hex": data.hex(), "hist": hist, "steps": steps}
+    # beyond the property (recorded as an observation, never an alarm): does decompiling the edited object agree with
+    # decompiling its own serialised bytes parsed again?
+    commutes = "na"
+    try:
+        d = p.dumps()
+        commutes = "yes" if ask(p, "source") == ask(fk.Pickled.load(d), "source") else "no"
+    except Exception:  # noqa: BLE001 - not serialisable / not parsable: nothing to compare
+        pass
+    return {"id": hid, "hex": data.hex(), "hist": hist, "steps": steps, "commutes": commutes}
 
 
 def bases(ctx, n):
@@ -202,6 +210,11 @@ def run(ctx):
                 sig = "dumps not concatenation"
             failures.append({"sig": sig, "detail": v["v"] + f" hist={r['hist']} obj={st['obj']} fresh={st['fresh']} hex={r['hex'][:60]}",
                              "replay_obj": {"property": "C14", "record": r, "verdict": v}})
+    nc = [r for r in records if r.get("commutes") == "no"]
+    ctx.notes.append(f"observation outside the property: on {len(nc)} of {sum(1 for r in records if r.get('commutes') in ('yes', 'no'))} "
+                     "edited objects the decompiled program differs from the decompilation of the object's own re-parsed bytes"
+                     + (f" (e.g. history {nc[0]['hist']}: text constants injected by the helpers are held as bytes in the opcode "
+                        "object and shown as b'...' until the bytes are parsed again)" if nc else ""))
     samples = [{"hist": r["hist"], "hex": r["hex"][:60], "steps": r["steps"][:3], "verdict": verdicts[r["id"]]}
                for r in records[:: max(1, len(records) // 4)][:4]]
     return finish(ctx, level="model_checking", failures=failures, evaluations=len(records), distinct_nontrivial=len(nontriv),
